@@ -230,7 +230,8 @@ def oracle(case, io, mo):
             return "use label %r should resolve to the second definition (label %r)" % (ul, p["dl2"])
     else:
         # upper(lower(.)) identifies a few more pairs than full case folding (dotless i); the property text allows 'ignores letter case'
-        if hits and norm_ref(dl).replace("ı", "i") != norm_ref(ul).replace("ı", "i"):
+        len_ = lambda x: norm_ref(x).replace("ı", "i")
+        if hits and len_(dl) != len_(ul) and not (p.get("dl2") is not None and len_(p["dl2"]) == len_(ul) and text_arg(hits[0], 0) == b"/second"):
             return "use label %r resolves although it does not match definition label %r" % (ul, dl)
     return None
 
